@@ -197,9 +197,14 @@ enum Act {
     DeviceData(usize),
     Shadow(usize),
     Will,
+    /// a request followed by the end of the connection BEFORE the router got to serve it (still in the ready queue)
+    SubAThenDropUnserved,
+    PubBThenDropUnserved,
+    ConnectThenDropUnserved,
 }
 
-const ACTS: [Act; 24] = [
+const ACTS: [Act; 27] = [
+    Act::SubAThenDropUnserved, Act::PubBThenDropUnserved, Act::ConnectThenDropUnserved,
     Act::ConnA(true), Act::ConnA(false), Act::ConnB, Act::SubA, Act::SubShareA, Act::PubB(0), Act::PubB(1), Act::PubB(2),
     Act::PubBUnicode, Act::AckA(1), Act::AckA(7), Act::RecA(1), Act::RelB(1), Act::CompA(1), Act::UnsubA, Act::PingA,
     Act::DisconnectPacketA, Act::DisconnectEvt(0), Act::DisconnectEvt(5), Act::Ready(0), Act::Ready(5), Act::DeviceData(5), Act::Shadow(0), Act::Will,
@@ -229,6 +234,32 @@ fn apply(r: &mut Router, a: &mut Option<Client>, b: &mut Option<Client>, act: Ac
         Act::DeviceData(id) => { r.events(id, Event::DeviceData); settle(r); }
         Act::Shadow(id) => { r.events(id, Event::Shadow(ShadowRequest { filter: "t/x".to_owned() })); settle(r); }
         Act::Will => { r.events(0, Event::PublishWill(("a".to_owned(), None))); settle(r); }
+        Act::SubAThenDropUnserved => {
+            if let Some(c) = a.take() {
+                c.ibuf.lock().push_back(subscribe(4, &[("t/#", 1)]));
+                r.events(c.id, Event::DeviceData);
+                r.events(c.id, Event::Disconnect);
+                settle(r);
+            }
+        }
+        Act::PubBThenDropUnserved => {
+            if let Some(c) = b.take() {
+                c.ibuf.lock().push_back(publish("t/x", 1, 5, "m", false));
+                r.events(c.id, Event::DeviceData);
+                r.events(c.id, Event::Disconnect);
+                settle(r);
+            }
+        }
+        Act::ConnectThenDropUnserved => {
+            let connection = Connection::new(None, "c".to_owned(), true, false);
+            let incoming = Incoming::new("c".to_owned());
+            let (outgoing, _rx) = Outgoing::new("c".to_owned());
+            r.events(0, Event::Connect { connection, incoming, outgoing });
+            if let Some(id) = r.connection_map.get("c").copied() {
+                r.events(id, Event::Disconnect);
+            }
+            settle(r);
+        }
     }
 }
 
@@ -381,6 +412,14 @@ fn every_request_gets_exactly_one_reply_in_order() {
             let got: Vec<String> = shown(&drain(&mut r, &a)).into_iter().filter(|s| !s.starts_with("PUBLISH(")).collect();
             let (exp, violated) = expected_replies(&reqs);
             let stray = shown(&drain(&mut r, &other));
+            // afterwards another client issues two requests of its own: it gets exactly the two replies to those
+            send(&mut r, &other, vec![Packet::PingReq(PingReq)]);
+            send(&mut r, &other, vec![Packet::PingReq(PingReq)]);
+            let own = shown(&drain(&mut r, &other));
+            if own != vec!["PINGRESP".to_string(), "PINGRESP".to_string()] {
+                fail = Some(format!("input=[requests of client a={:?} batched={}; then client 'other' pings twice] detail=[client 'other' received {:?}: replies to requests it never made]", reqs, batched, own));
+                break 'outer;
+            }
             let ok = if violated { got.len() <= exp.len() && got[..] == exp[..got.len()] } else { got == exp };
             if !ok {
                 fail = Some(format!("input=[requests={:?} batched={}] detail=[replies {:?}, expected {:?}]", reqs, batched, got, exp));
@@ -1075,4 +1114,106 @@ fn router_survives_selected_long_histories() {
     }
     std::panic::set_hook(prev);
     report(name, "C03,C14", "7 hand-picked histories of 5-8 actions (persistent + shared + unacknowledged + disconnect/takeover)", cases, fail);
+}
+
+/// C01: a subscription that takes effect late — after many topics have already been published (and cached by the
+/// broker's topic->filter index) — receives exactly the later matching messages of EVERY such topic
+// @native props=C01 tier=quick fn=DataLog::{next_native_offset,matches}+Router::{append_to_commitlog,prepare_filter}
+#[test]
+fn late_subscription_covers_every_already_known_topic() {
+    let name = "rumqttd::Router#late_subscription_sees_all_matching_topics";
+    let topics = ["a/b", "a/c", "b", "a/b/c", "c/b", "$x/b"];
+    let filters = ["a/b", "a/+", "#", "a/#", "+/b", "+/+", "b", "+"];
+    let mut cases = 0u64;
+    let mut fail: Option<String> = None;
+    'outer: for warm in 0..(1usize << topics.len()) {
+        // which topics have been published (and cached) before the subscription exists
+        for f in filters.iter() {
+            for q in 0..2u8 {
+                for with_other_subscriber in [false, true] {
+                    cases += 1;
+                    let mut r = new_router();
+                    let p = connect(&mut r, "p", true).unwrap();
+                    let other = connect(&mut r, "other", true).unwrap();
+                    if with_other_subscriber {
+                        send(&mut r, &other, vec![subscribe(1, &[("#", 0)])]);
+                    }
+                    for (i, t) in topics.iter().enumerate() {
+                        if warm & (1 << i) != 0 {
+                            send(&mut r, &p, vec![publish(t, 0, 0, "early", false)]);
+                        }
+                    }
+                    let s = connect(&mut r, "s", true).unwrap();
+                    send(&mut r, &s, vec![subscribe(2, &[(f, q)])]);
+                    let mut exp = vec![];
+                    for (i, t) in topics.iter().enumerate() {
+                        let payload = format!("late{}", i);
+                        send(&mut r, &p, vec![publish(t, 1, 40 + i as u16, &payload, false)]);
+                        if ref_matches(t, f) {
+                            exp.push((t.to_string(), payload, q, false));
+                        }
+                    }
+                    let got = receive_all(&mut r, &s);
+                    if got != exp {
+                        fail = Some(format!("input=[topics published before the subscription: mask {:06b} of {:?}; then subscribe {:?} QoS {}; then one publish per topic; another '#' subscriber present: {}] detail=[received {:?}, expected {:?}]", warm, topics, f, q, with_other_subscriber, got, exp));
+                        break 'outer;
+                    }
+                }
+            }
+        }
+    }
+    report(name, "C01", "64 subsets of 6 topics published before the subscription x 8 filters x QoS 0/1 x with/without another subscriber", cases, fail);
+}
+
+/// C01/C09: outgoing-buffer-full back-pressure (Unschedule -> Busy -> Ready) neither loses nor repeats messages
+// @native props=C01,C09 tier=quick fn=Router::{consume,forward_device_data}+Outgoing::push_forwards (BufferFull path)
+#[test]
+fn buffer_full_backpressure_delivers_each_message_once_in_order() {
+    let name = "rumqttd::Router#buffer_full_backpressure_exactly_once_in_order";
+    let mut cases = 0u64;
+    let mut fail: Option<String> = None;
+    'outer: for backlog in [150usize, 199, 200, 201, 450] {
+        for q in 0..2u8 {
+            for two_filters in [false, true] {
+                cases += 1;
+                let mut r = new_router();
+                let s = connect(&mut r, "s", true).unwrap();
+                let p = connect(&mut r, "p", true).unwrap();
+                let subs = if two_filters { vec![("f/#", q), ("f/+", q)] } else { vec![("f/#", q)] };
+                send(&mut r, &s, vec![subscribe(1, &subs)]);
+                let _ = drain(&mut r, &s);
+                // the subscriber does not read while the publisher floods
+                let mut pubs = vec![];
+                for i in 0..backlog {
+                    pubs.push(publish("f/x", 0, 0, &format!("{}", i), false));
+                }
+                for chunk in pubs.chunks(50) {
+                    send(&mut r, &p, chunk.to_vec());
+                }
+                let got = receive_all(&mut r, &s);
+                let desc = format!("{} messages published while the subscriber is not reading, subscriptions {:?}", backlog, subs);
+                if got.len() != backlog * subs.len() {
+                    fail = Some(format!("input=[{}] detail=[{} messages received, expected {}]", desc, got.len(), backlog * subs.len()));
+                    break 'outer;
+                }
+                // per subscription the sequence numbers must come in order, each exactly once
+                let mut seen = vec![0usize; backlog];
+                let mut last_per_pass: Vec<i64> = vec![];
+                for g in &got {
+                    let k: usize = g.1.parse().unwrap();
+                    seen[k] += 1;
+                    last_per_pass.push(k as i64);
+                }
+                if seen.iter().any(|c| *c != subs.len()) {
+                    fail = Some(format!("input=[{}] detail=[some message was delivered {} times instead of {}]", desc, seen.iter().find(|c| **c != subs.len()).unwrap(), subs.len()));
+                    break 'outer;
+                }
+                if !two_filters && last_per_pass.windows(2).any(|w| w[0] >= w[1]) {
+                    fail = Some(format!("input=[{}] detail=[messages arrived out of acceptance order]", desc));
+                    break 'outer;
+                }
+            }
+        }
+    }
+    report(name, "C01,C09", "backlogs 150,199,200,201,450 x QoS 0/1 x one/two filters, subscriber reads only afterwards", cases, fail);
 }
